@@ -22,7 +22,7 @@ SYMS = ["c1", "c2", "u1", "u2", "s", "re", "fo", "un"]
 
 
 def plan(tier, seed):
-    depth = 4 if tier == "quick" else 6
+    depth = 4 if tier == "quick" else 5
     specs = []
     if tier == "quick":
         for a in SYMS:
@@ -36,6 +36,12 @@ def plan(tier, seed):
         for a in SYMS:
             for b in SYMS:
                 specs.append({"name": f"exh-{a}{b}", "kind": "exh", "prefix": [a, b], "depth": depth, "budget_s": 1500})
+    if tier == "thorough":
+        # one level deeper for the sequences that start by getting a configuration accepted (c2 is symmetric to c1)
+        for b in SYMS:
+            for c3 in SYMS:
+                specs.append({"name": f"exh6-c1{b}{c3}", "kind": "exh", "prefix": ["c1", b, c3], "depth": 6,
+                              "exact_len": True, "budget_s": 1500})
     for i in range(8 if tier == "quick" else 16):
         specs.append({"name": f"rand{i}", "kind": "rand", "index": i, "sequences": 60 if tier == "quick" else 900,
                       "budget_s": 60 if tier == "quick" else 900})
@@ -283,7 +289,7 @@ async def amain(spec, acc, ctx, virtual=True):
     if kind == "exh":
         pre = spec["prefix"]
         if len(pre) <= spec["depth"]:
-            for L in range(len(pre), spec["depth"] + 1):
+            for L in ([spec["depth"]] if spec.get("exact_len") else range(len(pre), spec["depth"] + 1)):
                 for rest in itertools.product(SYMS, repeat=L - len(pre)):
                     if ctx.out_of_time() or acc.counters.get("timeouts", 0) > 3 or acc.n_violations > 25:
                         acc.note("exhaustive enumeration cut (time budget / repeated timeouts / many violations)")
@@ -342,8 +348,8 @@ def replay(case, acc, ctx):
 def finish(m, tier, seed):
     c = m["counters"]
     inc = []
-    depth = 4 if tier == "quick" else 6
-    want_pref = len(SYMS) ** 2 + len(SYMS)
+    depth = 4 if tier == "quick" else 5
+    want_pref = len(SYMS) ** 2 + len(SYMS) + (len(SYMS) ** 2 if tier == "thorough" else 0)
     exhaustive = len(m["sets"].get("exhaustive_prefixes", [])) == want_pref and not c.get("exhaustive_incomplete")
     if not exhaustive:
         inc.append("the exhaustive enumeration did not complete")
@@ -364,6 +370,7 @@ def finish(m, tier, seed):
                 "compared with the 3-state model; distinct = distinct message sequences.",
         "exhaustive": bool(exhaustive),
         "exhaustive_depth": depth,
+        "additionally_all_length_6_sequences_starting_with": "c1" if tier == "thorough" else None,
         "messages": c.get("messages", 0),
         "distinct_traces": len(m["sets"].get("distinct_traces", [])),
         "model_state_x_message_pairs_seen": len(pairs & need),
